@@ -26,7 +26,7 @@ func init() {
 func c09() []*Ob {
 	const bulkFn = "(*proxy/bulk.shard).Bulk"
 	return []*Ob{
-		{Prop: "C09", ID: "C09.1", Engine: "DOM+PROV", Floor: 3,
+		{Prop: "C09", ID: "C09.1", Engine: "DOM+PROV", Floor: 1,
 			Desc: "written-bit only on success and for the right replica: every store of true into writtenReplicas[i] is dominated by the nil error of sendBulkToHost in the same goroutine, and i and the replica sent to come from the same loop iteration; in sendBulkToStores the status slice passed to shard.Bulk is getShard(k) for the same k that selected the shard",
 			Check: func(c *Ctx) {
 				fn := c.Fn(bulkFn)
